@@ -236,6 +236,21 @@ class Executor(ValueOps, InstrOps):
         o = self.global_objs.get(name)
         if o is not None:
             return o
+        c = getattr(self, "conc", None)
+        if c is not None and c.recording is not None:
+            # package-level initialisation is not part of any thread: evaluate it outside the recording
+            rec, c.recording = c.recording, None
+            try:
+                o = self._global_obj_new(name)
+            finally:
+                c.recording = rec
+            c.shared_ids.add(o.id)
+            for oo in self.heap[o.id:]:
+                c.shared_ids.add(oo.id)
+            return o
+        return self._global_obj_new(name)
+
+    def _global_obj_new(self, name):
         g = self.prog.globals[name]
         ptid = g["type"]
         elem = self.prog.under(ptid)[1]["elem"]
